@@ -608,7 +608,7 @@ func c19TypeCase(r *Rand, d c19Doc, cap int) Case {
 	rows := d.t.rows
 	q := &Stmt{From: c19From("t"), Items: []Item{{E: Col("id")}}}
 	var fires bool
-	kind := Pick(r, []string{"where-nonbool-col", "where-nonbool-num", "having-nonbool", "case-nonbool", "arith-row-select", "arith-row-where", "arith-row-filtered", "arith-group", "on-nonbool"})
+	kind := Pick(r, []string{"where-nonbool-col", "where-nonbool-num", "having-nonbool", "case-nonbool", "arith-row-select", "arith-row-where", "arith-row-filtered", "arith-group", "on-nonbool", "orderby-through-scalar"})
 	multiset := false
 	plant := func() (float64, bool) {
 		if len(rows) == 0 {
@@ -655,6 +655,17 @@ func c19TypeCase(r *Rand, d c19Doc, cap int) Case {
 		fires = false
 		for _, row := range rows {
 			if _, isNum := row.(map[string]any)["g1"].(float64); !isNum && row.(map[string]any)["g1"] != nil {
+				fires = true
+			}
+		}
+	case "orderby-through-scalar":
+		// the sort key path runs through a scalar on one row: the comparator fails, Sort must report it
+		q.Items = []Item{{Star: true}}
+		q.Order = []OrderKey{{Path: []string{"o", "p", "q"}, Asc: r.Bool()}}
+		fires = false
+		if len(rows) >= 2 {
+			if _, ok := rows[0].(map[string]any)["o"].(map[string]any); ok {
+				Pick(r, rows).(map[string]any)["o"] = float64(3)
 				fires = true
 			}
 		}
